@@ -117,18 +117,18 @@ func GenLog(seed int64, n int) []LogOp {
 				continue
 			}
 			op = LogOp{Kind: "trunc", Index: m.Base.Index + 1 + uint64(r.Intn(len(m.Ents)))}
-		case p < 80:
+		case p < 78:
 			if len(m.Ents) == 0 {
 				continue
 			}
 			op = LogOp{Kind: "compact", Index: m.Base.Index + 1 + uint64(r.Intn(len(m.Ents)))}
-		case p < 87:
+		case p < 84:
 			l := m.last()
 			op = LogOp{Kind: "discard", Index: l.Index + uint64(r.Intn(4)), Term: l.Term + uint64(r.Intn(2))}
 			if op.Term == 0 {
 				op.Term = 1
 			}
-		case p < 94:
+		case p < 96:
 			op = LogOp{Kind: "reopen"}
 		default:
 			op = LogOp{Kind: "close"}
@@ -345,6 +345,15 @@ func judgeLogImage(img string, accept []LogModel) (string, string) {
 			}
 		}()
 		want := got.clone()
+		// first remove the newest entry that was loaded from disk: this exercises what the reopened log
+		// believes about the position of records it did not write itself
+		if len(want.Ents) > 0 {
+			victim := want.Ents[len(want.Ents)-1]
+			if err := l.Truncate(victim.Index); err != nil {
+				return "followup-failed", "Truncate(existing): " + err.Error()
+			}
+			want.Ents = want.Ents[:len(want.Ents)-1]
+		}
 		last := want.last()
 		t := last.Term
 		if t == 0 {
